@@ -57,6 +57,7 @@ def universes(tier):
         if i % 4 == 0:
             pre.append({"reaction": r})   # a fresh row in the same batch
     us.append(("pre-populated output columns", pre, {}, 5))
+    us += pf.ids_universes()
     return us
 
 
